@@ -63,12 +63,14 @@ structure KeySetOps (B : Type) where
 
 /-! ## kv/table/builder.go -/
 
-/-- `streamWriter` (the crc32 is not modelled) -/
+/-- `streamWriter`; `crcRev` = the chunks fed to the `hash.Hash32` since the last `Reset()`
+(newest first); the checksum function itself is a parameter, see `Builder.swChecksum` -/
 structure SW where
   size : Nat := 0
   key : Nat := 0
   offset : Nat := 0
   badKey : Bool := true
+  crcRev : List Bytes := []
 deriving Repr
 
 /-- `storeBuilder`. `chunksRev`/`size` = the bufio writer (chunks newest first, running size);
@@ -130,14 +132,21 @@ def Builder.newSW (b : Builder B) : Builder B := { b with sw := {} }
 
 /-- `streamWriter.Prepare` -/
 def Builder.prepare (b : Builder B) (key : Nat) : Builder B :=
-  { b with sw := { badKey := !b.ensureIncreasingKey key, offset := b.size, key := key, size := 0 } }
+  { b with sw := { badKey := !b.ensureIncreasingKey key, offset := b.size, key := key, size := 0,
+                   crcRev := [] } }    -- sw.crc32.Reset()
 
 /-- `streamWriter.Write`; second component = the returned n -/
 def Builder.swWrite (b : Builder B) (data : Bytes) : Builder B × Nat :=
   if b.sw.badKey then (b, 0)
   else
     let b' := b.write data
-    ({ b' with sw := { b'.sw with size := b'.sw.size + data.length } }, data.length)
+    -- _, _ = sw.crc32.Write(data); sw.size += uint32(n)
+    ({ b' with sw := { b'.sw with size := b'.sw.size + data.length, crcRev := data :: b'.sw.crcRev } },
+     data.length)
+
+/-- `streamWriter.CRC32CheckSum()`: the checksum (`crc` = IEEE crc32, a parameter) of everything
+written since `Prepare` -/
+def Builder.swChecksum (crc : Bytes → Nat) (b : Builder B) : Nat := crc b.sw.crcRev.reverse.flatten
 
 /-- `streamWriter.Commit` -/
 def Builder.commit (K : KeySetOps B) (b : Builder B) : Option (Builder B) :=
@@ -163,6 +172,18 @@ def Builder.close (K : KeySetOps B) (b : Builder B) : Option Bytes :=
     let keys := K.marshal b.keys
     let posOfKeys := posOfOffset + offset.length
     some (b.written ++ offset ++ keys ++ footer posOfOffset posOfKeys)
+
+/-- `Close` whose n-th write (0 = offsets, 1 = keys, 2 = footer) fails: the error is returned and
+the deferred `writer.Close()` leaves on disk what was written before (the failing write itself is
+taken to write nothing). The caller (`storeFlusher.Commit`, `finishCompactionOutputFile`) returns
+the error without adding the file to an edit log. -/
+def Builder.closePartial (K : KeySetOps B) (b : Builder B) (n : Nat) : Bytes :=
+  let offset := b.offset.marshal
+  let keys := K.marshal b.keys
+  match n with
+  | 0 => b.written
+  | 1 => b.written ++ offset
+  | _ => b.written ++ offset ++ keys
 
 /-- builder operations as the harness issues them -/
 inductive Op where
@@ -233,13 +254,16 @@ def Reader.get (K : KeySetOps B) (r : Reader B) (key : Nat) : GetRes :=
     | .ok v => .ok v
     | .error _ => .corrupt
 
+/-- `storeMMapIterator.Value()` at block index i: `block, _ := it.reader.getBlock(it.idx)` -/
+def Reader.valueAt (r : Reader B) (i : Nat) : Bytes :=
+  match r.offsets.getBlock (i : Int) r.entries with
+  | .ok v => v
+  | .error _ => []
+
 /-- `storeMMapIterator` run to exhaustion: the i-th `Key()` is the i-th key of the bitmap
 iterator, the i-th `Value()` is `getBlock(i)` with the error dropped (`block, _ :=` ⇒ nil). -/
 def Reader.iterate (K : KeySetOps B) (r : Reader B) : List (Nat × Bytes) :=
-  (K.toList r.keys).zipIdx.map (fun (k, i) =>
-    (k, match r.offsets.getBlock (i : Int) r.entries with
-        | .ok v => v
-        | .error _ => []))
+  (K.toList r.keys).zipIdx.map (fun (k, i) => (k, r.valueAt i))
 
 /-! ## kv/version: FileMeta, Version.FindFiles, Snapshot.Load -/
 
@@ -291,6 +315,124 @@ def findReaders (K : KeySetOps B) (fs : Nat → Option Bytes) (levels : List (Li
 error for them: file gone, EMFILE, mmap failure …) -/
 def failing (fs : Nat → Option Bytes) (openFails : Nat → Bool) : Nat → Option Bytes :=
   fun f => if openFails f then none else fs f
+
+/-! ## kv/version: edit logs, Clone, and the aliasing of level maps -/
+
+/-- `newFile` / `deleteFile` edit-log entries (the other log kinds do not touch the levels) -/
+inductive VLog where
+  | newFile (level : Nat) (file : FileMeta)
+  | deleteFile (level : Nat) (fileNumber : Nat)
+deriving Repr, DecidableEq
+
+/-- `level.addFile`: `l.files[file.GetFileNumber()] = file` -/
+def addFileL (m : List FileMeta) (f : FileMeta) : List FileMeta :=
+  m.filter (fun g => g.fileNumber ≠ f.fileNumber) ++ [f]
+
+/-- `level.deleteFile`: `delete(l.files, fileNumber)` -/
+def delFileL (m : List FileMeta) (fno : Nat) : List FileMeta :=
+  m.filter (fun g => g.fileNumber ≠ fno)
+
+/-- what a log does to one level map, and to which level (`version.AddFile/DeleteFile` ignore a
+level outside `[0, numOfLevels)`) -/
+def VLog.level : VLog → Nat
+  | .newFile l _ => l
+  | .deleteFile l _ => l
+
+def VLog.onMap : VLog → List FileMeta → List FileMeta
+  | .newFile _ f => fun m => addFileL m f
+  | .deleteFile _ n => fun m => delFileL m n
+
+/-- `log.apply(version)` on the levels as a value -/
+def VLog.apply (levels : List (List FileMeta)) (g : VLog) : List (List FileMeta) :=
+  match levels[g.level]? with
+  | none => levels
+  | some m => levels.set g.level (g.onMap m)
+
+/-- `editLog.apply(version)` -/
+def applyLogs (levels : List (List FileMeta)) (logs : List VLog) : List (List FileMeta) :=
+  logs.foldl VLog.apply levels
+
+/-- the edit-log entries `storeFlusher.Commit` adds for its builder: a `NewFile` at level 0 with
+the builder's MinKey/MaxKey/Size, only when `builder.Size() > 0` and `Close` returned no error
+(`ioOk = false`: a write of `Close` failed) -/
+def commitLogs (K : KeySetOps B) (b : Builder B) (fileNumber : Nat) (ioOk : Bool) : List VLog :=
+  if b.size = 0 then []
+  else if !ioOk then []
+  else
+    match b.close K with
+    | none => []
+    | some _ => [.newFile 0 { fileNumber := fileNumber, minKey := b.minKey, maxKey := b.maxKey, fileSize := b.size }]
+
+/-- the level maps live in a heap (Go maps are references); a version is the list of the
+addresses of its level maps -/
+abbrev Heap := List (List FileMeta)
+abbrev Ver := List Nat
+
+/-- the map object at an address (an address that does not exist holds nothing) -/
+def heapAt (heap : Heap) (a : Nat) : List FileMeta :=
+  match heap[a]? with
+  | some m => m
+  | none => []
+
+def deref (heap : Heap) (v : Ver) : List (List FileMeta) := v.map (heapAt heap)
+
+/-- `log.apply` mutating the map object of the addressed level in place -/
+def VLog.applyH (heap : Heap) (v : Ver) (g : VLog) : Heap :=
+  match v[g.level]? with
+  | none => heap
+  | some a =>
+    match heap[a]? with
+    | none => heap
+    | some m => heap.set a (g.onMap m)
+
+def applyLogsH (heap : Heap) (v : Ver) (logs : List VLog) : Heap :=
+  logs.foldl (fun h g => g.applyH h v) heap
+
+/-- `version.Clone()`: `newVersion` allocates a fresh map per level and every file is added to it -/
+def cloneDeep (heap : Heap) (v : Ver) : Heap × Ver :=
+  (heap ++ deref heap v, List.range' heap.length v.length)
+
+/-- a `Clone` that would share the level maps with its source -/
+def cloneShared (heap : Heap) (v : Ver) : Heap × Ver := (heap, v)
+
+/-! ## iterators of one reader -/
+
+/-- `storeMMapIterator`: its own position in the key iterator and its own block index; the
+reader is only read -/
+structure Iter where
+  keysLeft : List Nat
+  idx : Nat
+deriving Repr
+
+/-- `reader.Iterator()` = `newMMapIterator`: a new object -/
+def Reader.iterator (K : KeySetOps B) (r : Reader B) : Iter := { keysLeft := K.toList r.keys, idx := 0 }
+
+/-- one `HasNext(); Key(); Value()` round: `none` when exhausted -/
+def Iter.next (r : Reader B) (it : Iter) : Option ((Nat × Bytes) × Iter) :=
+  match it.keysLeft with
+  | [] => none
+  | k :: rest =>
+    some ((k, r.valueAt it.idx), { keysLeft := rest, idx := it.idx + 1 })
+
+/-- two iterators of the same reader stepped in the order given (`false` = the first one) -/
+def stepTwo (r : Reader B) : List Bool → Iter → Iter → List (Bool × Option (Nat × Bytes))
+  | [], _, _ => []
+  | false :: s, a, b =>
+    match a.next r with
+    | none => (false, none) :: stepTwo r s a b
+    | some (o, a') => (false, some o) :: stepTwo r s a' b
+  | true :: s, a, b =>
+    match b.next r with
+    | none => (true, none) :: stepTwo r s a b
+    | some (o, b') => (true, some o) :: stepTwo r s a b'
+
+/-- one iterator stepped n times on its own -/
+def stepOne (r : Reader B) : Nat → Iter → List (Option (Nat × Bytes))
+  | 0, _ => []
+  | n + 1, a =>
+    match a.next r with
+    | none => none :: stepOne r n a
+    | some (o, a') => some o :: stepOne r n a'
 
 /-! ## executable stand-in for the bitmap: keys kept in descending order -/
 
